@@ -5,9 +5,9 @@
 set -u
 export GOFLAGS=-mod=mod GOPROXY=off GOSUMDB=off GOTOOLCHAIN=local
 PROP=$1; N=$2
-SRC=/tmp/seed/$PROP/out
-DST=/verif/seeded/$PROP-$N
-W=/tmp/scratch/vs.$PROP.$N
+SRC=${SEEDDIR:-/tmp/seed}/$PROP/out
+DST=/verif/seeded/$PROP-$N${SUFFIX:-}
+W=/tmp/scratch/vs.$PROP.$N${SUFFIX:-}
 rm -rf $W; git -C /repo worktree add -q --detach $W ${BASE:-HEAD} || exit 2
 trap "git -C /repo worktree remove --force $W" EXIT
 cd $W
@@ -32,15 +32,17 @@ cp $SRC/demo${N}_test.go $DST/demo_test.go.txt
 python3 - "$PROP" "$N" "$D0" "$D1" "$S" <<'PY'
 import json,sys
 prop,n,d0,d1,s=sys.argv[1:6]
-src=json.load(open(f'/tmp/seed/{prop}/out/meta{n}.json'))
+import os as _os
+src=json.load(open(_os.environ.get('SEEDDIR','/tmp/seed')+f'/{prop}/out/meta{n}.json'))
 import os,subprocess
 base=os.environ.get('BASE','HEAD')
 basec=subprocess.run(['git','-C','/repo','rev-parse','--short',base],capture_output=True,text=True).stdout.strip()
-head_ok=subprocess.run(['git','-C','/repo','apply','--check',f'/tmp/seed/{prop}/out/patch{n}.diff'],capture_output=True).returncode==0
+head_ok=subprocess.run(['git','-C','/repo','apply','--check',_os.environ.get('SEEDDIR','/tmp/seed')+f'/{prop}/out/patch{n}.diff'],capture_output=True).returncode==0
 meta={"property":prop,"written_against_commit":basec,"applies_to_current_head":head_ok,"breaks":src.get("summary"),"needs_to_manifest":src.get("needs_to_manifest"),
  "files_changed":src.get("files_changed"),
  "confirmed_by_me":{"commands":["git worktree add <scratch> HEAD","cp demo -> zz_demoN_test.go; go test -run TestZZDemoN .  (unchanged tree)","git apply patch.diff; go build ./...","go test -run TestZZDemoN .  (with the change)","go test -vet=off -count=1 -timeout 25m ./...  (existing suite with the change, demo removed)"],
    "demo_without_change":d0,"demo_with_change":d1,"existing_suite_with_change":s},
  "author":"independent sub-agent given only the property text (no access to /verif)"}
-json.dump(meta,open(f'/verif/seeded/{prop}-{n}/meta.json','w'),indent=1)
+meta['round']=2 if _os.environ.get('SUFFIX') else 1
+json.dump(meta,open(f'/verif/seeded/{prop}-{n}'+_os.environ.get('SUFFIX','')+'/meta.json','w'),indent=1)
 PY
